@@ -79,6 +79,11 @@ def _scenario(sym, mode_note=""):
                           lambda: f"{desc}: method error but Method Status {rig.tag('Method Status')!r}")
         sym.reach()
         # the engine stays responsive: Stop is accepted and completes, a corrected method is accepted and runs
+        for _ in range(4):
+            # (Stop is not a valid command in the transient state Restarting -- C06's gating rule; the user asks again)
+            if rig.system_state != "Restarting":
+                break
+            rig.tick(0.1)
         if rig.system_state != "Stopped":
             refused = rig.user("Stop")
             sym.check(refused is None, "stop-refused", lambda: f"{desc}: Stop refused in state {rig.system_state}: {refused!r}")
